@@ -78,11 +78,11 @@ func rank(s string) int {
 	return 0
 }
 
-func (r *RuleRun) OK(key, pos, detail string)        { r.add(key, pos, Discharged, detail, true) }
-func (r *RuleRun) Trivial(key, pos, detail string)   { r.add(key, pos, Discharged, detail, false) }
-func (r *RuleRun) Fail(key, pos, detail string)      { r.add(key, pos, Violated, detail, true) }
-func (r *RuleRun) Unknown(key, pos, detail string)   { r.add(key, pos, Undecided, detail, true) }
-func (r *RuleRun) Note(format string, a ...any)      { r.Notes = append(r.Notes, fmt.Sprintf(format, a...)) }
+func (r *RuleRun) OK(key, pos, detail string)      { r.add(key, pos, Discharged, detail, true) }
+func (r *RuleRun) Trivial(key, pos, detail string) { r.add(key, pos, Discharged, detail, false) }
+func (r *RuleRun) Fail(key, pos, detail string)    { r.add(key, pos, Violated, detail, true) }
+func (r *RuleRun) Unknown(key, pos, detail string) { r.add(key, pos, Undecided, detail, true) }
+func (r *RuleRun) Note(format string, a ...any)    { r.Notes = append(r.Notes, fmt.Sprintf(format, a...)) }
 func (r *RuleRun) Check(ok bool, key, pos, good, bad string) {
 	if ok {
 		r.OK(key, pos, good)
